@@ -114,6 +114,13 @@ META = {
         assumptions=COMMON_ASSUME + ["server ISN and IP id are drawn by the implementation and masked", "segments arrive in order and unduplicated (the quantifier's scope)"],
         deadline_quick=900, deadline_thorough=3400,
     ),
+    "C07": dict(
+        rule="(a) pushers/file.OpenRotateFile driven directly on tmpfs inside a bubble (the rotation timestamp follows the fake clock): max size 1024, all write histories of depth <=3 (thorough 4), one level deeper below the three boundary first writes rem-1 / rem / rem+1 over a batch alphabet of 45 batches (1-3 JSON lines with lengths from {12,100,rem-1,rem,rem+1,1023,1024,1025,2049}, rem = space left, recomputed per state) x 'advance the clock 1 s before this write or not' (first three writes) x 'log file removed / renamed away before this write' (at most once); max sizes 4096 and 1 MiB with the scaled boundary set at depth 3. (b) the whole FileBackend (file.New, Send, writeLoop with its 1 s flush timer) in the bubble: all Send sequences of length 2..4 (thorough 5) over 7 pad lengths around the 1024 boundary, a 1,500-event burst that crosses the 500 KiB batch threshold, and three unwritable destinations. Oracle: after the flush interval the multiset of complete JSON lines in <file> and <file>.* equals the lines/events written (none lost, duplicated or torn); a rotated file once seen never changes or disappears; a file exceeds the max size only if it holds a single line; every Send returns (a Send still parked after one fake hour blocks forever).",
+        bounds_quick="rotate depth 3 (4 below boundary first writes); backend sequences <=4",
+        bounds_thorough="rotate depth 4 (5 below boundary first writes); backend sequences <=5",
+        assumptions=COMMON_ASSUME + ["tmpfs (/dev/shm) file semantics; lines written before an external removal of the log file are legitimately gone"],
+        deadline_quick=900, deadline_thorough=3400,
+    ),
 }
 
 NOT_APPLICABLE = {}
